@@ -260,8 +260,10 @@ def check(ctx: Ctx) -> list[RuleResult]:
         st = c
         while not isinstance(st, ast.stmt):
             st = st.parent  # type: ignore[attr-defined]
+        from .common import inline_calls
+
         facts = short_circuit_facts(c) + facts_at(st)
-        hit = [f"`{norm(t)[:70]}` is {v}" for t, v in facts if edge_implies(expand(hm.node, t, pure_only=False), v, goal)]  # type: ignore[arg-type]
+        hit = [f"`{norm(t)[:70]}` is {v}" for t, v in facts if edge_implies(expand(hm.node, inline_calls(ctx, hm, t), pure_only=False), v, goal)]  # type: ignore[arg-type]
         if hit:
             r4.ok({"site": norm(st)[:70], "known_because": hit})
         else:
